@@ -82,6 +82,28 @@ def source_hashes(functions):
 # ---------------------------------------------------------------------------------------------------------------------
 
 def _run_hw_task(mod, task, tier, prop):
+    if "cfgs" in task:
+        # batch of configurations in one process
+        agg = {"results": [], "difftest": None, "info": None, "errors": []}
+        dts = []
+        for cfg in task["cfgs"]:
+            t2 = dict(task)
+            del t2["cfgs"]
+            t2["cfg"] = cfg
+            o = _run_hw_task(mod, t2, tier, prop)
+            if "error" in o:
+                return o
+            agg["results"] += o["results"]
+            if o.get("difftest"):
+                dts.append(o["difftest"])
+            agg["info"] = o["info"]
+            agg["contract"] = o["contract"]
+        if dts:
+            agg["difftest"] = {"cycles": sum(d["cycles"] for d in dts), "comparisons": sum(d["comparisons"] for d in dts),
+                               "mismatches": sum(d["mismatches"] for d in dts),
+                               "first": [x for d in dts for x in d["first"]][:5]}
+        agg["info"] = dict(agg["info"] or {}, batch=len(task["cfgs"]))
+        return agg
     from . import engine
     fn = getattr(mod, task["fn"])
     cfg = task.get("cfg")
@@ -335,7 +357,7 @@ def main(prop, tier):
         "vacuity_covers_reached": len(covered),
         "known_findings_reported": [{"id": k["id"], "obligation": r["id"]} for k, r in known_hits],
         "functions_under_contract": source_hashes(getattr(mod, "FUNCTIONS", [])),
-        "configurations": [cfg_str(t.get("cfg")) for t in tasks],
+        "configurations": [cfg_str(c_) for t in tasks for c_ in (t["cfgs"] if "cfgs" in t else [t.get("cfg")])][:400],
         "tasks": infos,
         "extractor_cross_check": difftests,
         "solver_seconds_total": solver_s,
